@@ -57,17 +57,21 @@ where
     let r2 = result.clone();
     let d2 = done.clone();
     let role2 = role.clone();
-    if db_thread {
-        core::with_ctx(|c| {
+    let group = core::with_ctx(|c| {
+        let g = c.groups.get(&core::me()).copied().unwrap_or(0);
+        if db_thread {
             c.live_db_threads += 1;
             c.spawned_db_threads += 1;
-        });
-    }
+            *c.live_by_group.entry(g).or_insert(0) += 1;
+        }
+        g
+    });
     let body: Box<dyn FnOnce() + 'static> = Box::new(move || {
         core::detach_current();
         let me = core::me();
         core::with_ctx(|c| {
             c.roles.insert(me, role2.clone());
+            c.groups.insert(me, group);
         });
         core::log("thread_start", || role2.clone());
         let r = std::panic::catch_unwind(std::panic::AssertUnwindSafe(f));
@@ -89,11 +93,11 @@ where
             let q = if db_thread {
                 core::try_with_ctx(|c| {
                     c.live_db_threads -= 1;
-                    if c.live_db_threads == 0 {
-                        std::mem::take(&mut c.quiesce_waiters)
-                    } else {
-                        Vec::new()
+                    if let Some(n) = c.live_by_group.get_mut(&group) {
+                        *n -= 1;
                     }
+                    // waiters re-check their own group's count
+                    std::mem::take(&mut c.quiesce_waiters)
                 })
                 .unwrap_or_default()
             } else {
@@ -162,18 +166,28 @@ pub fn live_db_threads() -> usize {
     core::with_ctx(|c| c.live_db_threads)
 }
 
-/// Wait until every database thread has exited. There is deliberately no timeout: simulated time
-/// may run ahead of the work of runnable threads, so a timeout would encode timing. A thread that
-/// never exits shows up through the scheduler's hang watchdog instead.
-pub fn wait_db_quiescent() {
+/// Tag the calling thread: database threads spawned (transitively) from it belong to `group`.
+pub fn set_current_group(group: u32) {
+    let me = core::me();
+    core::with_ctx(|c| {
+        c.groups.insert(me, group);
+    });
+}
+
+/// Wait until every database thread of `group` (one database instance) has exited. There is
+/// deliberately no timeout: simulated time may run ahead of the work of runnable threads, so a
+/// timeout would encode timing. A thread that never exits shows up through the scheduler's hang
+/// watchdog instead.
+pub fn wait_db_quiescent(group: u32) {
     core::sched();
     let me = core::me();
     loop {
         let live = core::with_ctx(|c| {
-            if c.live_db_threads > 0 && !c.quiesce_waiters.contains(&me) {
+            let live = c.live_by_group.get(&group).copied().unwrap_or(0);
+            if live > 0 && !c.quiesce_waiters.contains(&me) {
                 c.quiesce_waiters.push(me);
             }
-            c.live_db_threads
+            live
         });
         if live == 0 || core::exec_over() {
             break;
